@@ -161,7 +161,8 @@ fn per_state<K: KeyT, V: ValT, const N: usize>(gsys: &MapSys<K, V, N>, full: &Ma
             }
             // the stepped copy must behave exactly like a never-cloned container in the same state
             let stepped = (sub.total_violations(), if on_clone { mc::mapsys::snapshot(&c.c) } else { mc::mapsys::snapshot(&b.bx.c) });
-            if stepped != baseline {
+            // (a clone may lay its entries out in another order: compare the associations, not the slots)
+            if (stepped.0, stepped.1.abstracted()) != (baseline.0, baseline.1.abstracted()) {
                 let m = sub.best.iter().flatten().next().map(|v| v.msg.clone()).unwrap_or_default();
                 cx.violate(
                     PM,
